@@ -53,6 +53,13 @@ Section Equal.
     item_eqv (m_body m) (m_body m').
 End Equal.
 
+(** list nesting of an item: 0 for a leaf, 1 + the deepest child for a list *)
+Fixpoint depth (x : item) : nat :=
+  match x with
+  | IList cs => S (fold_right (fun c m => Nat.max (depth c) m) O cs)
+  | _ => O
+  end.
+
 Section Domain.
   (** [egt]: the repaired writer is in use (then ASCII items may hold the closing bracket) *)
   Variable egt : bool.
@@ -84,11 +91,13 @@ Section Domain.
     end.
 
   (** a data message: stream 0..127, function 0..255, W only on an odd function
-      (hsms.NewDataMessage); the body is empty or an item of the grammar *)
+      (hsms.NewDataMessage); the body is empty or an item of the grammar, nested no deeper than
+      secs2.MaxListDepth (the strict parser's cap since fix 95562b6; finding C13-depth-cap) *)
   Definition dom_msg (m : msg) : bool :=
     (0 <=? m_stream m) && (m_stream m <=? 127) && (0 <=? m_function m) && (m_function m <=? 255)
     && (negb (m_wbit m) || (m_function m mod 2 =? 1))
-    && (is_empty (m_body m) || dom_item (m_body m)).
+    && (is_empty (m_body m) || dom_item (m_body m))
+    && (Z.of_nat (depth (m_body m)) <=? max_list_depth).
 
   (** encoder options: the indent unit is SML whitespace *)
   Definition opts_ok (o : enc_opts) : bool := eo_strict o && forallb is_sml_space (eo_indent o).
